@@ -291,8 +291,8 @@ func cliCheck(c Case, o *pbt.Outcome) {
 	}
 }
 
-func TestProp(t *testing.T) {
-	pbt.Main(t, pbt.Prop[Case]{
+func theProp() pbt.Prop[Case] {
+	return pbt.Prop[Case]{
 		ID:   "C12",
 		Rule: "specs drawn from the diff-oriented grammar (path-level shared parameters, all parameter locations, array params with defaults/examples, headers, untyped schemas, tuples, allOf, $ref cycles, extensions everywhere); identity cases compare A with itself / its YAML rendering / key-shuffled / parameter- and enum-list-shuffled copy; totality cases compare A with an edited copy (1-5 catalogue edits) or an unrelated spec. Non-trivial: identity case whose spec exhibits >=3 catalogue features, or a pair with a non-empty report; distinct by (variant, feature set[, report size]).",
 		Assumptions: []string{
@@ -301,5 +301,11 @@ func TestProp(t *testing.T) {
 		},
 		Gen:   gen,
 		Check: check,
-	})
+	}
 }
+
+func TestProp(t *testing.T) { pbt.Main(t, theProp()) }
+
+// FuzzProp is the native, coverage-guided entry (thorough tier).
+func FuzzProp(f *testing.F) { pbt.Fuzz(f, theProp()) }
+
